@@ -826,7 +826,10 @@ def run_order_batch(exe, hs, isolate=True):
     # A history whose output is missing, or that ended in a way a loaded machine can cause (a worker that died
     # takes the rest of its share with it; a deadline passed), is run again on its own, once, before anything is
     # concluded from it.  Only what fails again alone is a result.
-    again = [i for i, o in enumerate(outs) if o is None or any(k in (o.get("err") or "") for k in LOAD_SUSPECT)]
+    def suspect(o):
+        err = o.get("err")
+        return isinstance(err, str) and any(k in err for k in LOAD_SUSPECT)
+    again = [i for i, o in enumerate(outs) if o is None or suspect(o)]
     for i in again[:200]:
         rc1, o1, e1 = _run_tagged(exe, [hs[i]], 900)
         if o1[0] is not None:
